@@ -528,7 +528,8 @@ func (ref *Node) DoGetChild(r node.ChildRequest) (node.Node, error) {
 	if ref.Options.IgnoreEmpty && !r.New && reflectIsEmpty(obj) {
 		return nil, nil
 	}
-	if meta.IsList(r.Meta) && r.Selection.Path.Meta != r.Meta {
+	// (no selection: a presence probe made from the container, see exists)
+	if meta.IsList(r.Meta) && (r.Selection == nil || r.Selection.Path.Meta != r.Meta) {
 		return ref.NewList(r.Meta, obj.Interface(), ref.onListUpdate(r.Meta.(*meta.List)))
 	}
 	return ref.New(r.Meta, obj.Interface())
